@@ -360,9 +360,10 @@ public:
 			n = 0;
 		String s(n, 0);
 		n = read(&s[0], n);
-		if (n >= 0)
-			s[n] = '\0';
-		return s.fix();
+		if (n < 0)
+			n = 0;
+		s[n] = '\0';
+		return s.fix(n);
 	}
 
 	/**
